@@ -46,6 +46,66 @@ func (m *Mirror) ForgetFlags() {
 	}
 }
 
+// ForgetFlagsOf forgets the flags of the messages a .SILENT store addressed (the client is not told their new flags);
+// what it knows about every other message stays, so that announcements owed for those are still checked. set is the
+// message set as written; count is the number of messages the client counted when it sent the command.
+func (m *Mirror) ForgetFlagsOf(set string, uid bool, count int) {
+	type rng struct{ lo, hi uint64 }
+	var rs []rng
+	star := uint64(count)
+	if uid {
+		star = 0
+		for _, c := range m.Cells {
+			if uint64(c.UID) > star {
+				star = uint64(c.UID)
+			}
+		}
+	}
+	num := func(x string) (uint64, bool) {
+		if x == "*" {
+			return star, true
+		}
+		var v uint64
+		if _, err := fmt.Sscanf(x, "%d", &v); err != nil {
+			return 0, false
+		}
+		return v, true
+	}
+	for _, part := range strings.Split(set, ",") {
+		ab := strings.SplitN(part, ":", 2)
+		lo, ok := num(ab[0])
+		hi := lo
+		if ok && len(ab) == 2 {
+			hi, ok = num(ab[1])
+		}
+		if !ok {
+			m.ForgetFlags() // not understood: be conservative
+			return
+		}
+		if lo > hi {
+			lo, hi = hi, lo
+		}
+		rs = append(rs, rng{lo, hi})
+	}
+	for i := range m.Cells {
+		key := uint64(i + 1)
+		if uid {
+			if m.Cells[i].UID == 0 {
+				m.Cells[i].Known, m.Cells[i].Flags = false, nil // UID unknown to the client: may have been addressed
+				continue
+			}
+			key = uint64(m.Cells[i].UID)
+		} else if i >= count {
+			continue
+		}
+		for _, r := range rs {
+			if key >= r.lo && key <= r.hi {
+				m.Cells[i].Known, m.Cells[i].Flags = false, nil
+			}
+		}
+	}
+}
+
 // Apply processes one untagged line; it returns a description of an inconsistency, if any.
 func (m *Mirror) Apply(u imapc.Untagged) string {
 	if !m.Valid {
